@@ -114,6 +114,17 @@ def strip_rng(cfg: Dict) -> Dict:
     return cfg
 
 
+def with_random_agent(cfg: Dict, n: int = 30, ref: str = "verif_random") -> Dict:
+    """the scenario plus a `random-agent` that samples, every step, one of the first n entries of the RL agent's (generated) action map"""
+    cfg = copy.deepcopy(cfg)
+    pa = envrig.proxy_agent_cfg(cfg)
+    amap = (pa or {}).get("action_space", {}).get("action_map") or {0: {"action": "do-nothing", "options": {}}}
+    keys = sorted(amap)[:n]
+    cfg["agents"].append({"ref": ref, "team": "GREEN", "type": "random-agent",
+                          "action_space": {"action_map": {i: copy.deepcopy(amap[k]) for i, k in enumerate(keys)}}})
+    return cfg
+
+
 def set_thresholds(cfg: Dict, th: Dict) -> Dict:
     cfg = copy.deepcopy(cfg)
     cfg.setdefault("game", {})["thresholds"] = th
@@ -600,6 +611,9 @@ def _do_dirty(ctx: Rec, unit: dict):
         cfg, maker = _load(unit["scenario"]), scen.make_env
         if cfg is not None and unit.get("aug") is not None:
             cfg = _aug(cfg, unit["aug"][0], unit["aug"][1])
+            if unit.get("random_agent"):
+                cfg = with_random_agent(cfg)
+                ctx.count("dirty:case-with-a-random-agent")
     if cfg is None:
         ctx.notes.append(f"dirty-history {label}: scenario missing")
         return
@@ -742,7 +756,8 @@ def _dirty_specs(ctx: Ctx, rng: Rng):
             yield name + "/shipped-map", {"scenario": name, "aug": None}
             first = False
         for v in range(ctx.scale(1, 2)):
-            yield f"{name}/generated-map-{v}", {"scenario": name, "aug": (rng.fork(f"aug{name}{v}"), ctx.scale(50, 120))}
+            yield f"{name}/generated-map-{v}", {"scenario": name, "aug": (rng.fork(f"aug{name}{v}"), ctx.scale(50, 120)),
+                                                "random_agent": name == "basic_firewall" or (ctx.thorough and v == 1)}
     for d in (["scenario_with_placeholders"] + (["mini_scenario_with_simulation_variation"] if ctx.thorough else [])):
         if (scen.PKG / d).is_dir():
             yield f"{d}/episodic", {"dir": d}
@@ -760,6 +775,9 @@ def _pairs(ctx: Ctx, rng: Rng):
         a = _aug(strip_rng(uc2), rng.fork("pA"), ctx.scale(40, 90))
         out.append(("uc2-norng", "uc2-thresholds", a, set_thresholds(uc2, TH)))
         out.append(("uc2-norng", "firewall-nmne-same", a, set_nmne(fw, uc2["simulation"]["network"]["nmne_config"])))
+        # A carries a RANDOM AGENT (private generator seeded at build, /repo 903a159) and nothing that draws from a global generator in step:
+        # the model predicts A unaffected by B's steps after every seeded operation of A; B (full UC2) draws from the global generators
+        out.append(("uc2-norng+random-agent", "uc2", with_random_agent(a), uc2))
         # A's scenario has NO nmne_config section, B's captures: what A sees right after its OWN construction / reset must not depend on B
         # (own-build oracle; not F-10, which is about B overwriting what A reads later)
         nosec = copy.deepcopy(fw)
